@@ -329,11 +329,11 @@ Proof. intros b0 [l|] names b' k v H L; simpl in H; try discriminate. eapply bin
 
 (* MultiHeadAttention.check accepted => query is [b,s,d], the Reshape output [b,s,h,dh] with the SAME codes b, s, the
    num_heads attribute is the static dim 2 of the Reshape output, and the SDPA key_format fits the pattern branch *)
-Theorem mha_check_shapes : forall i h ub, mha_check_rewrite i = Some (h, ub) ->
+Theorem mha_check_shapes : forall st i h ub, mha_check_rewrite st i = Some (h, ub) ->
   exists b s d dh, mi_query i = Some [b; s; d] /\ mi_query4 i = Some [b; s; h; dh] /\ (0 <= h)%Z
     /\ mi_key_format_bhsd i = mi_key_transposed i.
 Proof.
-  intros i h ub H. unfold mha_check_rewrite in H.
+  intros st i h ub H. unfold mha_check_rewrite in H.
   match type of H with match ?b6 with _ => _ end = _ => destruct b6 as [bd|] eqn:E6; [|discriminate] end.
   (* b5 *)
   assert (E5 : exists bd5, check_shape (if Bool.eqb (mi_key_format_bhsd i) (mi_key_transposed i)
@@ -371,14 +371,14 @@ Qed.
 (* Sufficiency for NAMED / static dims: run-time sizes are a function [val] of the dim codes (the ONNX contract for
    dim_param names; static dims are themselves).  A Reshape preserves the element count, so the accepted shapes force
    hidden = num_heads * head_size and the Reshape IS the head split of mha_split_merge with H = num_heads. *)
-Theorem mha_check_sufficient : forall i h ub (val : Z -> Z) rq rq4,
-  mha_check_rewrite i = Some (h, ub) -> consistent val ->
+Theorem mha_check_sufficient : forall st i h ub (val : Z -> Z) rq rq4,
+  mha_check_rewrite st i = Some (h, ub) -> consistent val ->
   option_map (map val) (mi_query i) = Some rq -> option_map (map val) (mi_query4 i) = Some rq4 ->
   zprod rq = zprod rq4 -> (forall x, In x rq -> 0 < x)%Z ->
   exists B S Dh, rq = [B; S; h * Dh]%Z /\ rq4 = [B; S; h; Dh].
 Proof.
-  intros i h ub val rq rq4 H C Q Q4 P Pos.
-  destruct (mha_check_shapes _ _ _ H) as (b & s & d & dh & Eq & Eq4 & Hh & _).
+  intros st i h ub val rq rq4 H C Q Q4 P Pos.
+  destruct (mha_check_shapes _ _ _ _ H) as (b & s & d & dh & Eq & Eq4 & Hh & _).
   rewrite Eq in Q. rewrite Eq4 in Q4. simpl in Q, Q4. inversion Q; subst rq. inversion Q4; subst rq4. clear Q Q4.
   rewrite (C h Hh) in *. exists (val b), (val s), (val dh). split; auto.
   unfold zprod in P. simpl in P.
@@ -391,7 +391,7 @@ Qed.
    query [?,?,8] with Reshape output [?,?,2,4] although at run time query is [2,3,8] and the Reshape produced
    [3,2,2,4] (element counts agree): the head split of the theorem does not apply (replayed on the real rule). *)
 Theorem mha_check_unnamed_dims_refuted : exists i rq rq4,
-  mha_check_rewrite i = Some (2%Z, false) /\ fits_codes (mi_query i) rq = true /\ fits_codes (mi_query4 i) rq4 = true
+  mha_check_rewrite false i = Some (2%Z, false) /\ fits_codes (mi_query i) rq = true /\ fits_codes (mi_query4 i) rq4 = true
   /\ zprod rq = zprod rq4 /\ firstn 2 rq4 <> firstn 2 rq.
 Proof.
   exists (mk_mha_in false true true (Some [-1; -1; 8]%Z) (Some [-1; -1; 2; 4]%Z) (Some [-1; -1; 8]%Z) (Some [-1; -1; 8]%Z) None None None),
@@ -410,7 +410,7 @@ Qed.
    Witness 1: mask [2,1,3,1] on scores [2,2,3,3] -- NumPy broadcasts the last axis, MultiHeadAttention's attention_bias
    must have T there.  Witness 2: mask [3,1,3,3] on scores [1,2,3,3] (the mask broadcasts the batch). *)
 Theorem mha_mask_check_refuted : exists i B H S T mask ub h,
-  mi_mask i = Some (Some mask) /\ mha_check_rewrite i = Some (h, ub) /\ numpy_broadcastable mask [B; H; S; T] = true
+  mi_mask i = Some (Some mask) /\ mha_check_rewrite false i = Some (h, ub) /\ numpy_broadcastable mask [B; H; S; T] = true
   /\ mha_mask_ok B H S T (mha_mask_after ub S mask) = false.
 Proof.
   exists (mk_mha_in false true true (Some [2; 3; 8]%Z) (Some [2; 3; 2; 4]%Z) (Some [2; 3; 8]%Z) (Some [2; 3; 8]%Z) None None (Some (Some [2; 1; 3; 1]%Z))),
@@ -418,7 +418,7 @@ Proof.
   repeat split; vm_compute; reflexivity.
 Qed.
 Theorem mha_mask_batch_check_refuted : exists i B H S T mask ub h,
-  mi_mask i = Some (Some mask) /\ mha_check_rewrite i = Some (h, ub)
+  mi_mask i = Some (Some mask) /\ mha_check_rewrite false i = Some (h, ub)
   /\ mha_mask_ok B H S T (mha_mask_after ub S mask) = false /\ nth 3 mask 0%Z = T.
 Proof.
   exists (mk_mha_in false true true (Some [1; 3; 8]%Z) (Some [1; 3; 2; 4]%Z) (Some [1; 3; 8]%Z) (Some [1; 3; 8]%Z) None None (Some (Some [3; 1; 3; 3]%Z))),
@@ -446,19 +446,20 @@ Proof.
 Qed.
 
 (* GroupQueryAttention.check: what it establishes ... *)
-Theorem gqa_check_sound : forall st i h hkv il, gqa_check_rewrite st i = Some (h, hkv, il) ->
+Theorem gqa_check_sound : forall st h16 i h hkv il, gqa_check_rewrite st h16 i = Some (h, hkv, il) ->
   (0 <= h)%Z /\ (0 <= hkv)%Z /\ dim_at (gi_query4 i) 2 = Some h /\ dim_at (gi_key4 i) 2 = Some hkv
   /\ gi_q_interleaved i = il /\ gi_k_interleaved i = il /\ gi_mask_has_producer i = true
   /\ (st = true -> gi_mask_is_causal_pattern i = true).
 Proof.
-  intros st i h hkv il. unfold gqa_check_rewrite.
+  intros st h16 i h hkv il. unfold gqa_check_rewrite.
   destruct (gi_q_norm_twice i || gi_k_norm_twice i); [discriminate|].
   match goal with |- match ?b with _ => _ end = _ -> _ => destruct b; [|discriminate] end.
   destruct (dim_at (gi_query4 i) 2) as [x|]; [|discriminate]. destruct (dim_at (gi_key4 i) 2) as [y|]; [|discriminate].
   destruct (is_static x) eqn:E1; simpl; [|discriminate]. destruct (is_static y) eqn:E2; simpl; [|discriminate].
   destruct (Z.eqb (gi_q_interleaved i) (gi_k_interleaved i)) eqn:E3; simpl; [|discriminate].
   destruct (gi_mask_has_producer i) eqn:E4; simpl; [|discriminate].
-  destruct (negb st || gi_mask_is_causal_pattern i) eqn:E5; [|discriminate].
+  destruct (negb st || gi_mask_is_causal_pattern i) eqn:E5; simpl; [|discriminate].
+  match goal with |- (if ?c then _ else _) = _ -> _ => destruct c; [|discriminate] end.
   intro H; inversion H; subst. apply Z.leb_le in E1, E2. apply Z.eqb_eq in E3.
   repeat split; auto. intro; subst st. simpl in E5. auto.
 Qed.
@@ -470,12 +471,12 @@ Definition gqa_witness (dh : Z) (causal : bool) : gqa_in :=
             (Some (Some [-2; 2; -4; dh]%Z)) (Some (Some [-2; 2; -4; dh]%Z))
             (Some [-2; -3; 4; dh]%Z) (Some [-2; -3; 2; dh]%Z) 0 0 false false true causal.
 Theorem gqa_check_head_size_refuted : exists i h hkv il dh,
-  gqa_check_rewrite true i = Some (h, hkv, il) /\ dim_at (gi_query4 i) 3 = Some dh /\ gqa_kernel_ok h hkv dh = false.
+  gqa_check_rewrite true false i = Some (h, hkv, il) /\ dim_at (gi_query4 i) 3 = Some dh /\ gqa_kernel_ok h hkv dh = false.
 Proof. exists (gqa_witness 8 true), 4%Z, 2%Z, 0%Z, 8%Z. repeat split; vm_compute; reflexivity. Qed.
 Theorem gqa_check_mask_refuted : exists i h hkv il,
-  gqa_check_rewrite false i = Some (h, hkv, il) /\ gi_mask_is_causal_pattern i = false /\ gqa_check_rewrite true i = None.
+  gqa_check_rewrite false false i = Some (h, hkv, il) /\ gi_mask_is_causal_pattern i = false /\ gqa_check_rewrite true false i = None.
 Proof. exists (gqa_witness 16 false), 4%Z, 2%Z, 0%Z. repeat split; vm_compute; reflexivity. Qed.
-Example gqa_check_fires : gqa_check_rewrite true (gqa_witness 16 true) = Some (4, 2, 0)%Z /\ gqa_kernel_ok 4 2 16 = true.
+Example gqa_check_fires : gqa_check_rewrite true true (gqa_witness 16 true) = Some (4, 2, 0)%Z /\ gqa_kernel_ok 4 2 16 = true.
 Proof. split; vm_compute; reflexivity. Qed.
 
 (* AttentionFusion.check: with one packed projection the three slices tile the projected hidden size *)
@@ -522,7 +523,7 @@ Example mha_check_sufficient_satisfiable :
   let i := mk_mha_in false true true (Some [-2; -3; 8]%Z) (Some [-2; -3; 2; 4]%Z) (Some [-2; -3; 8]%Z) (Some [-2; -3; 8]%Z) None None
                      (Some (Some [1; 1; 1; -3]%Z)) in
   let val := fun d : Z => if Z.eqb d (-2) then 2%Z else if Z.eqb d (-3) then 3%Z else d in
-  mha_check_rewrite i = Some (2%Z, true) /\ consistent val
+  mha_check_rewrite true i = Some (2%Z, true) /\ consistent val
   /\ option_map (map val) (mi_query i) = Some [2; 3; 8]%Z /\ option_map (map val) (mi_query4 i) = Some [2; 3; 2; 4]%Z
   /\ zprod [2; 3; 8]%Z = zprod [2; 3; 2; 4]%Z.
 Proof.
